@@ -102,7 +102,7 @@ class Transformer(BaseEstimator, TransformerMixin, ABC):
                 coords[data.name] = data
             else:
                 # Make sure the DataArray has some name so we can create a string mapping
-                if data.name is None:
+                if not data.name:
                     data.name = key
                 data_vars[data.name] = data
             ds = xr.Dataset(data_vars=data_vars, coords=coords)
